@@ -66,9 +66,11 @@ CLAIMED.update({
              'fail_fast, switch, batching) driven by 2-3 concurrent callers and a stream. Stage outputs are tagged with '
              'stage and input so any cross-talk is visible. An environment thread releases gated worker calls in every '
              'order; all schedules with <= d deviations (d=1-2 quick, 2-3 thorough). The ids harness rebinds id() in the '
-             'server module to a model allocator that answers fresh-or-any-recycled (free choice, fully enumerated).',
-        note='thread servlets (process servlets are outside the scheduler); timers fire only when nothing can run; '
-             'deadlines are virtual and generous so a TimeoutError is a lost response',
+             'server module to a model allocator that answers fresh-or-any-recycled (free choice, fully enumerated). The same '
+             'oracle runs on AsyncServer (tasks on a virtual loop) and on servlet trees with worker PROCESSES behind the '
+             'simulated process boundary (gated process workers, 16-24 simulated threads).',
+        note='process servlets run behind a model of multiprocessing (simproc), not as OS processes; timers fire only when '
+             'nothing can run; deadlines are virtual and generous so a TimeoutError is a lost response',
         design_ref='DESIGN.md 4 C02'),
     'C04': dict(
         engine='schedex',
@@ -79,7 +81,8 @@ CLAIMED.update({
              'and args with the traceback naming the failure site, EnsembleError per the documented rule carrying only '
              'this request\'s member outcomes, every other request correct, exactly the members of the failing call() '
              'invocation fail.',
-        note='thread servlets only here; the text form of tracebacks across a process hop is the subject of C15',
+        note='process servlets (harness pfaults) run behind the simulated process boundary: exceptions cross a pickling pipe, so '
+             'the traceback of the failure site must arrive as text',
         design_ref='DESIGN.md 4 C04'),
     'C06': dict(
         engine='schedex',
@@ -107,7 +110,8 @@ CLAIMED.update({
              'renew(); put_end/__next__/renew traced line by line; all schedules with <= 2 deviations (3 thorough). Oracle '
              'per round: multiset received == put, no None delivered, every consumer ends, renew succeeds, exactly one end '
              'marker left. ResponsiveQueue: blocked get/put raise StopRequested within the wait interval for every stop moment.',
-        note='thread queues; the multiprocessing-queue variant (feeder-thread asynchrony) is not explored',
+        note='thread queues, plus the token queues in simulated multiprocessing queues (harness iq_mp, feeder-thread asynchrony '
+             'modelled); rounds are separated by renew() as the property says (see DESIGN 0.7 for the wait_for_renew mode)',
         design_ref='DESIGN.md 4 C17'),
     'C19': dict(
         engine='schedex',
@@ -147,9 +151,10 @@ CLAIMED.update({
              'preprocessor-rejected position (incl. the first element) x capacity x return_x x return_exceptions on a virtual '
              'event loop, compared with the real sync fifo_stream on the same inputs and with the reference list. '
              'AsyncServer.call/stream is explored with the gather/worker threads under the controlled scheduler against the '
-             'same per-request reference that Server is checked against in C02/C04.',
+             'same per-request reference that Server is checked against in C02/C04 (incl. saturated and backpressure cases). '
+             'The thread/loop hybrids ParmapperAsync and AsyncParmapper are explored under the scheduler (n=3, d<=1/2).',
         note='inside one event loop the ready queue is FIFO and deterministic; the enumerated durations are the only source of '
-             'completion-order nondeterminism there. AsyncParmapper/ParmapperAsync (thread hybrids) are not in this check.',
+             'completion-order nondeterminism there.',
         design_ref='DESIGN.md 4 C16'),
 })
 
@@ -162,7 +167,8 @@ CLAIMED.update({
              'preprocess rejections, a second competing worker, an in-worker thread pool, and a 14-request run with gated '
              'call() that fills the collector buffer (batch_size+10). Oracle: well-formed batches of genuine inputs, every '
              'accepted request in exactly one batch, own errors for rejected ones, one correct output per request, batch '
-             'released no later than first element + wait (exact on the virtual clock).',
+             'released no later than first element + wait (exact on the virtual clock). Harness collector_full opens the gate at '
+             'the moment the collector buffer becomes full and explores d<=2 on the collector (found the lost wake-up).',
         note='thread queues; call() takes no virtual time in the timing oracle',
         design_ref='DESIGN.md 4 C09'),
     'C11': dict(
@@ -183,7 +189,8 @@ CLAIMED.update({
              'exception, done, wait, as_completed) x all schedules with <= 2 deviations. SpawnProcess behind the simulated '
              'process boundary: the same plus SIGKILL/SIGTERM at EVERY scheduling point of the child (free crash choice per '
              'point) x first accessor. Oracle: every accessor returns, values/exceptions/exit codes agree, traceback text '
-             'kept, a kill surfaces as OSError and completes wait/as_completed. Twins: 5 real children incl. real SIGKILL/SIGTERM.',
+             'kept, a kill surfaces as OSError and completes wait/as_completed; also terminate() by the parent right after '
+             'start(). Twins: 5 real children incl. real SIGKILL/SIGTERM.',
         note='crash granularity = scheduling points of the traced child code and blocking operations',
         design_ref='DESIGN.md 4 C12'),
     'C13': dict(
@@ -213,7 +220,7 @@ CLAIMED.update({
              '{0, .05, .1, .25} s (reader timeouts in between) for 7 payload kinds incl. header look-alikes and a 200 KiB blob, '
              '1-2 records. Server: real _handle_connection with 3 requests x every handler-duration vector x failing handler x '
              'backlog. Client: real SocketClient with in-memory connections to a scripted server answering in every order, 2 '
-             'requester threads + stream, d<=2. Named pipe: all 798 payload sequences of length <= 3 in both directions on real '
+             'requester threads + stream + a timed-out request with ids from the model allocator, d<=2. Named pipe: all 798 payload sequences of length <= 3 in both directions on real '
              'FIFOs; one real unix-socket run with 48 requests incl. a 2.4 MB payload.',
         note='kernel scheduling of the real FIFO / socket runs is not controlled',
         design_ref='DESIGN.md 4 C18'),
